@@ -1,6 +1,55 @@
-(* C09: STAMQL parsing is total; printing then parsing is a fixpoint. *)
+(* C09: STAMQL parsing is total; printing then parsing is a fixpoint.
+   The theorems are about the model of src/api/query.rs (Model/StamqlLex.v,
+   Model/Stamql.v) as repaired by the fix: commits of this property.
+   dt stands for chrono's RFC 3339 parser and re for Regex::new(..).is_ok();
+   the totality theorems hold for ARBITRARY such functions. *)
 From Coq Require Import List ZArith NArith Bool.
-From Stam Require Import Model.StamqlLex Model.Stamql Proofs.StamqlLex.
+From Stam Require Import Model.StamqlLex Model.Stamql Proofs.StamqlLex Proofs.StamqlTotal.
 
+(* (a) the lexer never panics, for any input *)
 Theorem C09_get_arg_total : forall dt s, get_arg dt s <> Panic /\ get_arg dt s <> Fuel.
 Proof. exact get_arg_total. Qed.
+
+Theorem C09_parse_name_total : forall s, parse_name s <> Panic /\ parse_name s <> Fuel.
+Proof. exact parse_name_total. Qed.
+
+Theorem C09_parse_attributes_total : forall s, parse_attributes s <> Panic /\ parse_attributes s <> Fuel.
+Proof. exact parse_attributes_total. Qed.
+
+(* (b) a fixed-width slice behind a successful keyword dispatch is in range and on a character boundary *)
+Theorem C09_slice_safe : forall kw qs,
+  str_eqb (split_first qs) kw = true -> exists r, qs = kw ++ r /\ strip kw qs = Ok r.
+Proof. exact strip_after_split. Qed.
+
+Theorem C09_slice_safe_prefix : forall p s,
+  starts_with p s = true -> exists r, s = p ++ r /\ slice_from (blen p) s = Ok r.
+Proof. exact slice_after_prefix. Qed.
+
+(* (c) an argument classified by get_arg_type never reaches an expect()/unreachable!() of
+   parse_dataoperator, whatever the operator (after the fix: out-of-range integers are Err) *)
+Theorem C09_numeric_safe : forall dt op v quoted,
+  parse_dataoperator dt op v (get_arg_type dt v quoted) <> Panic
+  /\ parse_dataoperator dt op v (get_arg_type dt v quoted) <> Fuel.
+Proof. intros. exact (good_np _ _ (good_parse_dataoperator dt op v quoted)). Qed.
+
+(* the lexer never classifies a token as a float: the "." clears the numeric flag first *)
+Theorem C09_float_never_lexed : forall dt s quoted, get_arg_type dt s quoted <> TFloat.
+Proof. exact get_arg_type_never_float. Qed.
+
+(* (d) whole-parser totality: every string is answered with a query or a syntax error *)
+Theorem C09_constraint_total : forall dt re fuel qs,
+  length qs < fuel ->
+  parse_constraint dt re fuel qs <> Panic /\ parse_constraint dt re fuel qs <> Fuel.
+Proof. intros. exact (good_np _ _ (good_parse_constraint dt re fuel qs H)). Qed.
+
+Theorem C09_parse_total : forall dt re s,
+  parse_query dt re s <> Panic /\ parse_query dt re s <> Fuel.
+Proof. exact parse_query_total. Qed.
+
+Theorem C09_try_from_total : forall dt re s,
+  query_try_from dt re s <> Panic /\ query_try_from dt re s <> Fuel.
+Proof. exact query_try_from_total. Qed.
+
+Theorem C09_remainder_bounded : forall dt re s q r,
+  parse_query dt re s = Ok (q, r) -> length r <= length s.
+Proof. exact parse_query_remainder. Qed.
